@@ -43,7 +43,20 @@ func convertPeerToSov(doc *did.Doc) (*did.Doc, error) {
 		return doc, nil
 	}
 
-	id := base58.Encode(base58.Decode(didParts[2])[:16])
+	const sovIDLen = 16
+
+	for i := 0; i < len(didParts[2]); i++ {
+		if didParts[2][i] >= 0x80 { //nolint:gomnd // base58.Decode panics on a non-ASCII rune
+			return nil, fmt.Errorf("peer did is not base58 encoded")
+		}
+	}
+
+	rawID := base58.Decode(didParts[2])
+	if len(rawID) < sovIDLen {
+		return nil, fmt.Errorf("peer did is too short")
+	}
+
+	id := base58.Encode(rawID[:sovIDLen])
 
 	newDID := fmt.Sprintf("did:sov:%s", id)
 
